@@ -94,8 +94,8 @@ pub fn c17(tier: Tier) -> i32 {
                 .collect()
         }
         Tier::Quick => {
-            let mut v = vec![(1u64, 1u64 << 20)];
-            for p in 21..=31u32 {
+            let mut v = vec![(1u64, 1u64 << 24)];
+            for p in 25..=31u32 {
                 let c = 1u64 << p;
                 let lo = c - (1 << 15);
                 let hi = std::cmp::min(max_n, c + (1 << 15));
@@ -123,35 +123,46 @@ pub fn c17(tier: Tier) -> i32 {
         let mut qs = BTreeSet::new();
         for n in a..=b {
             let n32 = n as u32;
-            let mut shapes: Vec<Vec<u32>> = vec![vec![n32]];
-            if n >= 2 {
-                shapes.push(vec![1, n32 - 1]);
-                shapes.push(vec![n32 - n32 / 2, n32 / 2]);
-            }
-            if n >= 3 {
-                shapes.push(vec![n32 - 2, 1, 1]);
-            }
-            for s in shapes {
-                let r = catch_unwind(AssertUnwindSafe(|| sh.eval(&s)));
-                evals += 1;
-                match r {
-                    Ok((qc, qm, stake_ok)) => {
-                        if !stake_ok {
-                            bad.push((s.clone(), "stake() does not return the configured stake".into()));
+            let shapes: [(usize, [u32; 3]); 4] = [
+                (1, [n32, 0, 0]),
+                (if n >= 2 { 2 } else { 0 }, [1, n32.wrapping_sub(1), 0]),
+                (if n >= 2 { 2 } else { 0 }, [n32 - n32 / 2, n32 / 2, 0]),
+                (if n >= 3 { 3 } else { 0 }, [n32.wrapping_sub(2), 1, 1]),
+            ];
+            let r = catch_unwind(AssertUnwindSafe(|| {
+                let mut out = [(0u64, 0u64, true); 4];
+                for (k, (len, st)) in shapes.iter().enumerate() {
+                    if *len > 0 {
+                        out[k] = sh.eval(&st[..*len]);
+                    }
+                }
+                out
+            }));
+            match r {
+                Ok(out) => {
+                    for (k, (len, st)) in shapes.iter().enumerate() {
+                        if *len == 0 {
+                            continue;
+                        }
+                        evals += 1;
+                        let (qc, qm, stake_ok) = out[k];
+                        if !stake_ok && bad.len() < 4 {
+                            bad.push((st[..*len].to_vec(), "stake() does not return the configured stake".into()));
                         }
                         if let Err(e) = c17_oracle(n, qc, qm) {
                             if bad.len() < 4 {
-                                bad.push((s.clone(), e));
+                                bad.push((st[..*len].to_vec(), e));
                             }
                         }
-                        if n <= 64 {
+                        if n <= 64 && k == 0 {
                             qs.insert((n, qc));
                         }
                     }
-                    Err(_) => {
-                        if bad.len() < 4 {
-                            bad.push((s.clone(), "panic in quorum_threshold()".into()));
-                        }
+                }
+                Err(_) => {
+                    evals += 1;
+                    if bad.len() < 4 {
+                        bad.push((vec![n32], "panic in quorum_threshold() or stake()".into()));
                     }
                 }
             }
@@ -242,7 +253,7 @@ pub fn c17(tier: Tier) -> i32 {
     rep.set("exhaustive", json!(tier == Tier::Thorough));
     rep.set(
         "ranges",
-        json!(if tier == Tier::Thorough { "1..=2^31-1 (all)".to_string() } else { "1..=2^20, +-2^15 around each power of two 2^21..2^31, top 2^16".to_string() }),
+        json!(if tier == Tier::Thorough { "1..=2^31-1 (all)".to_string() } else { "1..=2^24, +-2^15 around each power of two 2^25..2^31, top 2^16".to_string() }),
     );
     for (n, q) in small.iter().take(10) {
         rep.sample(json!({"n": n, "q": q}));
